@@ -386,9 +386,41 @@ func findHeadsShape(c *Ctx, r *Report, rule string) {
 		// enclosing statements of the write: only range loops, the outer over <param>.Keys(), the inner over GetNext()
 		overKeys, overNext, conditional, other := false, false, "", ""
 		for cur := p.parent[ast.Node(idxWrite)]; cur != nil && cur != ast.Node(fh.Body); cur = p.parent[cur] {
+			// what the loop runs over: the ranged expression, or — for a counted loop — the list the write
+			// indexes with the loop's counter; a single-definition local stands for its definition
+			var over ast.Expr
 			switch x := cur.(type) {
 			case *ast.RangeStmt:
-				if call, ok := ast.Unparen(x.X).(*ast.CallExpr); ok {
+				over = x.X
+			case *ast.ForStmt:
+				var ctr types.Object
+				if as, ok := x.Init.(*ast.AssignStmt); ok && len(as.Lhs) == 1 {
+					if id, ok := as.Lhs[0].(*ast.Ident); ok {
+						ctr = p.ObjOf(fh, id)
+					}
+				}
+				ast.Inspect(idxWrite, func(m ast.Node) bool {
+					if ie, ok := m.(*ast.IndexExpr); ok && over == nil && ctr != nil {
+						if id, ok := ast.Unparen(ie.Index).(*ast.Ident); ok && p.ObjOf(fh, id) == ctr {
+							if _, isSl := p.TypeOf(fh, ie.X).Underlying().(*types.Slice); isSl {
+								over = ie.X
+							}
+						}
+					}
+					return true
+				})
+			}
+			if id, ok := ast.Unparen(over).(*ast.Ident); ok && over != nil {
+				if d := p.SoleDef(fh, p.ObjOf(fh, id)); d != nil {
+					over = d
+				}
+			}
+			switch cur.(type) {
+			case *ast.RangeStmt, *ast.ForStmt:
+				if over == nil {
+					break
+				}
+				if call, ok := ast.Unparen(over).(*ast.CallExpr); ok {
 					if se, ok := ast.Unparen(call.Fun).(*ast.SelectorExpr); ok {
 						switch se.Sel.Name {
 						case "Keys", "Slice":
